@@ -74,6 +74,8 @@ def predict(scopes, M):
             for n in names:
                 if M[n]["rust"] == "wit_bindgen":
                     R.append({"reason": "rust-module-shadows-runtime-crate", "ident": "wit_bindgen", "names": [n], "scope": s["owner"]})
+                if M[n]["rust"] == "exports":
+                    R.append({"reason": "rust-top-level-module-exports", "ident": "exports", "names": [n], "scope": s["owner"]})
         if kind == "pkgname":
             for n in names:
                 if M[n].get("skw") == "1":
@@ -138,9 +140,12 @@ def explain(diag, reasons):
     if code in ("E0405", "E0412", "E0404", "E0433", "E0425", "E0422", "E0574", "E0423"):
         for r in reasons:
             if r["reason"] == "rust-guest-type-name" and any(i.startswith("Guest") for i in ids): return r
-    if code in ("E0433", "E0432", "E0425", "E0423"):
+    if code in DUP_CODES:
         for r in reasons:
-            if r["reason"] == "rust-module-shadows-runtime-crate" and mentions(diag, r["ident"]): return r
+            if r["reason"] == "rust-guest-type-name" and "Guest" in ids: return r
+    if code in ("E0433", "E0432", "E0425", "E0423") or code in DUP_CODES:
+        for r in reasons:
+            if r["reason"] in ("rust-module-shadows-runtime-crate", "rust-top-level-module-exports") and mentions(diag, r["ident"]): return r
     if code == "unused_variables" or msg.startswith("unused variable"):
         for r in reasons:
             if r["reason"] == "rust-temp-shadows-param" and r["ident"] in ids: return r
